@@ -140,6 +140,56 @@ fn check_multiset(sv: &SparseVector, model: &SetModel, case: &Case, rep: &mut Re
         let want: Vec<(usize, usize)> = model.ones.iter().copied().enumerate().rev().collect();
         ensure!(back == want, "SparseVector.one_iter.rev", "one_iter().rev() differs from the values in reverse with ranks");
     }
+    // set-bit iterator: a generated interleaving of next / next_back / nth(k) / nth_back(k) lists every value exactly once
+    if m <= 100_000 {
+        let mut dq: VecDeque<(usize, usize)> = model.ones.iter().copied().enumerate().collect();
+        let mut it = sv.one_iter();
+        let mut k = 0usize;
+        let mut guard = 0usize;
+        while !dq.is_empty() && guard < 4000 {
+            guard += 1;
+            let front = if case.pattern.is_empty() { k % 2 == 0 } else { case.pattern[k % case.pattern.len()] };
+            let e = if case.extra.is_empty() { (k as u64).wrapping_mul(0x9e37) } else { case.extra[k % case.extra.len()] };
+            k += 1;
+            ensure_eq!(it.len(), dq.len(), "SparseVector.one_iter.len", "len() of the set-bit iterator after {} calls", k - 1);
+            // skip: mostly small, sometimes just around the remainder
+            let skip = match e % 8 {
+                0..=3 => 0usize,
+                4 | 5 => (e >> 3) as usize % 4,
+                6 => dq.len().saturating_sub(1) + (e >> 3) as usize % 3,
+                _ => (e >> 3) as usize % (dq.len() + 2),
+            };
+            let want = if skip >= dq.len() {
+                dq.clear();
+                None
+            } else if front {
+                dq.drain(..skip);
+                dq.pop_front()
+            } else {
+                dq.truncate(dq.len() - skip);
+                dq.pop_back()
+            };
+            let (got, what) = match (front, skip) {
+                (true, 0) => (it.next(), "next()".to_string()),
+                (false, 0) => (it.next_back(), "next_back()".to_string()),
+                (true, s) => (it.nth(s), format!("nth({})", s)),
+                (false, s) => (it.nth_back(s), format!("nth_back({})", s)),
+            };
+            ensure_eq!(got, want, "SparseVector.one_iter.interleaved", "call {} ({}) of an interleaved walk over {} values", k, what, m);
+        }
+        if dq.is_empty() {
+            ensure_eq!(it.next(), None, "SparseVector.one_iter.interleaved", "next() after the walk consumed everything");
+            ensure_eq!(it.next_back(), None, "SparseVector.one_iter.interleaved", "next_back() after the walk consumed everything");
+        }
+        // the std adaptors that forward to nth
+        if m >= 3 {
+            let mut it = sv.one_iter().skip(m - 2);
+            let _ = it.next_back();
+            ensure_eq!(it.next(), Some((m - 2, model.ones[m - 2])), "SparseVector.one_iter.skip", "skip(m-2) then next_back() then next()");
+            ensure_eq!(it.next(), None, "SparseVector.one_iter.skip", "nothing may be left");
+        }
+        rep.class("one-iterator-interleaved");
+    }
     // bit iterator: forward, backward, interleaved -> distinct positions
     if n <= 20_000 {
         let bits: Vec<bool> = (0..n).map(|i| model.get(i)).collect();
@@ -169,7 +219,7 @@ fn check_multiset(sv: &SparseVector, model: &SetModel, case: &Case, rep: &mut Re
 impl Prop for C15 {
     type Case = Case;
     const ID: &'static str = "C15";
-    const RULE: &'static str = "(universe, non-decreasing value list): universes 1..2000 and up to 2^64-1; values generated as steps {same value, small step, fraction of the rest, jump to the end, next multiple of 2^k (-1)} each repeated 1..6 times, so duplicates occur at 0, at universe-1, at bucket edges and in long runs, including overfull lists (more values than the universe); built by builder set / try_set / extend / try_from_iter; oracle: sorted-Vec model for count_ones, len, select, rank (= number of values below i), get, successor (first occurrence), predecessor (last occurrence), one_iter forward/backward, bit iterator forward/backward/generated interleaving (distinct positions), is_multiset, saturating count_zeros; try_from_iter on arbitrary sequences is Ok iff non-decreasing and then len = last+1. All non-decreasing lists of length <= 5 over universes <= 5 enumerated. rank_zero/select_zero are not asserted (documented as not working). Non-trivial: at least one duplicate; distinct by (universe, values).";
+    const RULE: &'static str = "(universe, non-decreasing value list): universes 1..2000 and up to 2^64-1; values generated as steps {same value, small step, fraction of the rest, jump to the end, next multiple of 2^k (-1)} each repeated 1..6 times, so duplicates occur at 0, at universe-1, at bucket edges and in long runs, including overfull lists (more values than the universe); built by builder set / try_set / extend / try_from_iter; oracle: sorted-Vec model for count_ones, len, select, rank (= number of values below i), get, successor (first occurrence), predecessor (last occurrence), one_iter forward/backward and under a generated interleaving of next/next_back/nth/nth_back (also through skip), bit iterator forward/backward/generated interleaving (distinct positions), is_multiset, saturating count_zeros; try_from_iter on arbitrary sequences is Ok iff non-decreasing and then len = last+1. All non-decreasing lists of length <= 5 over universes <= 5 enumerated. rank_zero/select_zero are not asserted (documented as not working). Non-trivial: at least one duplicate; distinct by (universe, values).";
 
     fn cases(tier: Tier) -> u32 {
         tier.pick(20_000, 200_000)
@@ -307,7 +357,7 @@ impl Prop for C15 {
     }
 
     fn health(classes: &BTreeMap<String, u64>, _tier: Tier) -> Result<(), String> {
-        for c in ["overfull", "duplicate-at-0", "duplicate-at-last-position", "universe>=2^32", "single-value", "duplicate-run>=10", "m>=60000(long select superblocks in the high part possible)", "bit-iterator-interleaved", "try_from_iter:accepted", "try_from_iter:rejected", "route:0", "route:1", "route:2", "route:3"] {
+        for c in ["overfull", "duplicate-at-0", "duplicate-at-last-position", "universe>=2^32", "single-value", "duplicate-run>=10", "m>=60000(long select superblocks in the high part possible)", "bit-iterator-interleaved", "one-iterator-interleaved", "try_from_iter:accepted", "try_from_iter:rejected", "route:0", "route:1", "route:2", "route:3"] {
             if classes.get(c).copied().unwrap_or(0) == 0 {
                 return Err(format!("no generated case reached class {}", c));
             }
